@@ -2,7 +2,7 @@
    denotes, whose expressions are the (normalised) trees of the specified terms and are dominated; with
    SelectReader.read_print_select this gives the reader theorem for specifications. *)
 From PV Require Import Base Crit gen.TermsTable Terms Page gen.QueryTable Query Parse lemmas.ParseMono lemmas.ParsePrint.
-From PV Require Import C02Model C02Expected C02Frag lemmas.C02Lemmas lemmas.C02Final gen.C04Table Select lemmas.SelectReader.
+From PV Require Import C02Model C02Frag lemmas.C02Lemmas lemmas.C02Univ lemmas.C02Final gen.C04Table Select lemmas.SelectReader.
 From Coq Require Import Lia Arith.
 Local Open Scope list_scope.
 
@@ -14,10 +14,12 @@ Lemma frag_expr c t : frag02 c t = true ->
   exists e, rtoks c t = Some (pr impl_pol (norm e)) /\ to_expr c t = Some e /\ domq (norm e) = true.
 Proof.
   unfold frag02. destruct (rtoks c t) as [ts|] eqn:R; [|discriminate]. destruct (to_expr c t) as [e|] eqn:X; [|discriminate].
-  intros H. apply andb_prop in H as [H _]. apply andb_prop in H as [Htok Hpairs].
-  apply list_eqb_tok in Htok. exists e. repeat split.
-  - rewrite pr_norm. congruence.
-  - apply expected_dom; [exact sqlite_engine | exact Hpairs].
+  intros H. apply andb_prop in H as [H _]. apply andb_prop in H as [H Hclean]. apply andb_prop in H as [Hsubc Hnl].
+  apply negb_true_iff in Hsubc.
+  destruct (tokens_are_printed c t ts e R X Hsubc Hnl) as [-> _].
+  exists e. repeat split.
+  - rewrite pr_norm. reflexivity.
+  - apply clean_dominated; [exact sqlite_engine | exact Hclean].
 Qed.
 
 Lemma frag_etoks c t : frag02 c t = true ->
